@@ -432,6 +432,76 @@ theorem digits_recombine_single (Qs : List Nat) (inv : Nat → Nat) (x : Nat)
   intro qd _
   rw [digitA_emod, Int.natCast_mod, Int.emod_emod_of_dvd _ (dvd_refl _)]
 
+/-! ## 4. unconditional ranges (whatever the IEEE index) -/
+
+/-- every limb of a target row of the HPS branch is `< (k+2)·m`, for EVERY value of the IEEE index -/
+theorem das_row_lt (Q P : List Nat) (levelQ nbPi d : Nat) (hnb : 0 < nbPi) (hst : d * nbPi ≤ levelQ)
+    (hlQ : levelQ < Q.length) (hcnt : 2 ≤ min (d * nbPi + nbPi) (levelQ + 1) - d * nbPi)
+    (hC : Chain (dasGrp Q levelQ nbPi d)) (k : Nat) (hk : (dasGrp Q levelQ nbPi d).sum ≤ k * W)
+    (p0Q : Rows) (X : List Nat)
+    (hrows : ∀ i, d * nbPi ≤ i → i < min (d * nbPi + nbPi) (levelQ + 1) →
+      row p0Q i = X.map (· % Q.getD i 0))
+    (jt m : Nat) (hjt : jt < (Q ++ P.take nbPi).length) (hm : (Q ++ P.take nbPi).getD jt 0 = m)
+    (hpp : m.Prime) (hodd : m % 2 = 1) (hsm : (k + 1 + 2) * m ≤ W) :
+    ∀ out ∈ (dasMs Q P levelQ nbPi d p0Q m jt).map (fun o =>
+        subscalarvec_lane o ((prodN (dasGrp Q levelQ nbPi d) / 2) % m) 0 m), out < (k + 2) * m := by
+  rw [dasMs_eq Q P levelQ nbPi d hnb hst hlQ hcnt hC p0Q X hrows, List.map_map]
+  intro out hout
+  rw [List.mem_map] at hout
+  obtain ⟨x, _, rfl⟩ := hout
+  simp only [Function.comp]
+  have hne : dasGrp Q levelQ nbPi d ≠ [] := by
+    intro h
+    have := dasGrp_length Q levelQ nbPi d hlQ
+    rw [h] at this; simp at this; omega
+  subst hm
+  have h3 : (k + 1 + 2) * (Q ++ P.take nbPi).getD jt 0
+      = (k + 2) * (Q ++ P.take nbPi).getD jt 0 + (Q ++ P.take nbPi).getD jt 0 := by
+    rw [Nat.add_mul, Nat.add_mul, Nat.add_mul]; omega
+  have hlt := multSum_lt (dasGrp Q levelQ nbPi d) (Q ++ P.take nbPi) hC hne jt hjt hpp hodd k hk (by omega)
+    (dasY (dasGrp Q levelQ nbPi d) x) (dasY_length _ _)
+    (by unfold dasY
+        exact hpsY_lt _ _ (by unfold residues; simp) (fun q hq => (hC.prime q hq).pos))
+    (fidx (dasGrp Q levelQ nbPi d) (dasY (dasGrp Q levelQ nbPi d) x))
+  have hp2 : (Q ++ P.take nbPi).getD jt 0 ≤ (k + 2) * (Q ++ P.take nbPi).getD jt 0 :=
+    Nat.le_mul_of_pos_left _ (by omega)
+  exact (subscalar_lazy _ _ _ _ hpp.pos (Nat.mod_lt _ hpp.pos) (by omega) hlt hp2).2
+
+/-- **ranges of the HPS branch**: whatever `DecomposeAndSplit` returns, every limb of a Q-row outside the digit's own
+moduli and of every P-row is `< (k+2)·m`, for every value of the IEEE index. -/
+theorem decompose_multi_lt (Q P : List Nat) (hasP : Bool) (levelQ levelP nbPi d : Nat) (hnb : 0 < nbPi)
+    (hst : d * nbPi ≤ levelQ) (hlQ : levelQ < Q.length)
+    (hcnt : 2 ≤ min (d * nbPi + nbPi) (levelQ + 1) - d * nbPi)
+    (hC : Chain (dasGrp Q levelQ nbPi d)) (k : Nat) (hk : (dasGrp Q levelQ nbPi d).sum ≤ k * W)
+    (hTQ : Target Q (k + 1)) (hTP : Target P (k + 1)) (hlP : levelP + 1 ≤ nbPi) (hnP : nbPi ≤ P.length)
+    (p0Q prevQ : Rows) (X : List Nat)
+    (hrows : ∀ i, d * nbPi ≤ i → i < min (d * nbPi + nbPi) (levelQ + 1) →
+      row p0Q i = X.map (· % Q.getD i 0))
+    (outQ outP : Rows) (hout : decomposeAndSplit Q P hasP levelQ levelP nbPi d p0Q prevQ = some (outQ, outP)) :
+    (∀ j, j ≤ levelQ → (j < d * nbPi ∨ min (d * nbPi + nbPi) (levelQ + 1) ≤ j) →
+        ∀ y ∈ row outQ j, y < (k + 2) * Q.getD j 0)
+    ∧ (∀ j, j ≤ levelP → ∀ y ∈ row outP j, y < (k + 2) * P.getD j 0) := by
+  rw [das_multi Q P hasP levelQ levelP nbPi d p0Q prevQ (toNat_decompLvl levelQ nbPi d hnb hst hcnt).2] at hout
+  injection hout with hout
+  injection hout with h1 h2
+  subst h1; subst h2
+  constructor
+  · intro j hj ho
+    unfold subScalarBig
+    rw [row_map_range _ _ j (by omega), row_map_range _ _ j (by omega), if_pos ho]
+    have hmem := getD_mem Q j (by omega)
+    exact das_row_lt Q P levelQ nbPi d hnb hst hlQ hcnt hC k hk p0Q X hrows j (Q.getD j 0)
+      (by rw [List.length_append]; omega) (append_getD_left Q _ j (by omega))
+      (hTQ.prime _ hmem) (hTQ.odd _ hmem) (hTQ.small _ hmem)
+  · intro j hj
+    unfold subScalarBig
+    rw [row_map_range _ _ j (by omega), row_map_range _ _ j (by omega)]
+    have hmem := getD_mem P j (by omega)
+    exact das_row_lt Q P levelQ nbPi d hnb hst hlQ hcnt hC k hk p0Q X hrows (Q.length + j) (P.getD j 0)
+      (by rw [List.length_append, List.length_take]; omega)
+      (by rw [append_getD_right, take_getD P nbPi j (by omega)])
+      (hTP.prime _ hmem) (hTP.odd _ hmem) (hTP.small _ hmem)
+
 end Lattigo.Decomp
 
 #print axioms Lattigo.Decomp.decompLvl_eq
@@ -442,3 +512,4 @@ end Lattigo.Decomp
 #print axioms Lattigo.Decomp.decompose_multi_limbs
 #print axioms Lattigo.Decomp.digits_recombine
 #print axioms Lattigo.Decomp.digits_recombine_single
+#print axioms Lattigo.Decomp.decompose_multi_lt
